@@ -469,7 +469,10 @@ def merge(m1, m2, **kargs):
     # "import" m1 values into m2 locations:
     for loc, v2 in m2:
         if mm.has(loc):
-            continue
+            # already imported from m1, unless m2 writes more bytes
+            # at this address than m1 does:
+            if not (loc._is_ptr and all(v.size < v2.size for (l, v) in mm if l == loc)):
+                continue
         if loc._is_ptr:
             seg = loc.seg
             disp = loc.disp
